@@ -26,22 +26,33 @@ def plan(tier):
         for d in (False, True):
             pl.units.append(U("W.rendering.n%d.%s" % (n, "desc" if d else "nodesc"), "contracts.factorygen", "h_set_rendering", (n, d), native_ok=True, sample_models=True))
     pl.units.append(U("C.reset", "contracts.gating", "h_reset_parser_full", (), native_ok=True, sample_models=True))
+    for sh in ((), ("named",), ("named+desc",), ("anonymous",), ("disabled",), ("other-comments",), ("named+desc", "anonymous", "disabled"),
+               ("anonymous", "named", "anonymous"), ("other-comments", "named+desc"), ("disabled", "disabled", "named+desc")):
+        pl.units.append(U("L.loader.%s" % ("-".join(sh) or "empty"), "contracts.factorygen", "h_loader", (sh,), native_ok=True, sample_models=True))
+    pl.units += [u for u in common.pushdown_units() if u.uid.startswith("PD.up.")]
 
     def lf(u, label):
-        return label.startswith("W.") or label == "H1.reset.hash-comments-fresh"
+        if u.uid.startswith("PD."):
+            return label in ("P5.top-level-command-recorded-once-at-the-end", "P5.pending-comments-move-to-the-command",
+                             "P5.comments-stay-pending-inside-a-block", "P5.nested-command-is-not-recorded-at-top-level")
+        return label.startswith(("W.", "L.")) or label == "H1.reset.hash-comments-fresh"
 
     pl.label_filter = lf
     pl.bounded = [bounded_saveload, bounded_histories]
     pl.functions = [("sievelib.factory", "FiltersSet.tosieve"), ("sievelib.factory", "FiltersSet.from_parser_result"),
                     ("sievelib.parser", "Parser.__up"), ("sievelib.parser", "Parser.__reset_parser")]
     pl.trusted = ["str.format on symbolic pieces = concatenation"]
-    pl.unverified = ["from_parser_result (marker matching uses str.replace over symbolic text, which no installed solver decides) and the "
-                     "attachment of hash comments to top-level commands by Parser.__up: BOUNDED (save/load sequences, parse histories)"]
+    pl.unverified = ["the path between the two contracts -- the parser turning the written text back into commands with their comments "
+                     "(lexer + push-down composition): BOUNDED (save/load sequences, parse histories)"]
     pl.explanation = (
         "Deductive: FiltersSet.tosieve with SYMBOLIC marker prefixes, names and descriptions writes, after the require line, "
         "for each filter in order `name-marker + name`, the description line iff the description is non-empty, then the "
         "content -- an exact text equality for sets of 0..2 filters (bounded in length, symbolic in all texts); the pending "
-        "hash comments are reset to a fresh list at the start of every parse. Bounded: seeded operation sequences (names "
+        "hash comments are reset to a fresh list at the start of every parse. L -- the loader: from_parser_result on top-level "
+        "commands carrying exactly the comment lines tosieve writes, with SYMBOLIC names and descriptions (any text, marker "
+        "look-alikes included): names, descriptions, order, content and enabled status are recovered exactly, `Unnamed rule N` "
+        "otherwise (10 shapes of up to 3 commands). PD.up -- Parser.__up moves the pending comments to the top-level command "
+        "it records and leaves them pending inside a block. Bounded: seeded operation sequences (names "
         "with non-ASCII and marker look-alikes, descriptions, three marker pairs) saved, parsed, loaded with "
         "from_parser_result and compared (names, order, enabled, descriptions, requires) + re-render fixed point; parse "
         "histories showing each top-level command gets exactly its own comments.")
